@@ -55,23 +55,46 @@ end BV.C03
 namespace BV.C03
 open BV BV.Dict BV.Parse BV.Worker
 
-/-- live connection, receive worker: for every byte string handed over by the transport the worker
-    survives the iteration and the association lock is released -/
-theorem worker_step_safe (s : Bytes) :
-    (step Gen.dictionary s).alive = true ∧ (step Gen.dictionary s).lockHeld = false := by
+/-- live connection, receive worker: for every byte string handed over by the transport and every
+    carried partial message the worker survives the iteration and the association lock is released -/
+theorem worker_step_safe (carry s : Bytes) :
+    (step Gen.dictionary carry s).alive = true ∧ (step Gen.dictionary carry s).lockHeld = false := by
   unfold step
-  cases h : loadMsgs Gen.dictionary s with
-  | ok ms => simp
+  cases h : loadMsgs Gen.dictionary (splitData (carry ++ s)).1 with
+  | ok ms => simp [finish]
   | error e =>
-    have := msgs_errors_are_library s e h
-    cases e <;> simp_all [Err.notStd]
+    have := msgs_errors_are_library _ e h
+    cases e <;> simp_all [Err.notStd, finish]
 
 /-- nothing is enqueued from a stream that fails to decode; a decodable stream is enqueued in order -/
-theorem worker_enqueues (s : Bytes) :
-    (step Gen.dictionary s).enqueued = (match loadMsgs Gen.dictionary s with | .ok ms => ms | .error _ => []) := by
+theorem worker_enqueues (carry s : Bytes) :
+    (step Gen.dictionary carry s).enqueued =
+      (match loadMsgs Gen.dictionary (splitData (carry ++ s)).1 with | .ok ms => ms | .error _ => []) := by
   unfold step
-  cases h : loadMsgs Gen.dictionary s with
+  cases h : loadMsgs Gen.dictionary (splitData (carry ++ s)).1 with
   | ok ms => rfl
   | error e => cases e <;> rfl
+
+/-- no byte is dropped by the split: complete part and carried part make up the data (unless the data is
+    handed over whole because it cannot be framed) -/
+theorem split_keeps_bytes (s : Bytes) : (splitData s).1 ++ (splitData s).2 = s ∨ (splitData s) = (s, []) := by
+  unfold splitData
+  simp only
+  split
+  · right; rfl
+  · left
+    suffices ∀ f (t : Bytes), (Inbound.splitStream f t).1.flatten ++ (Inbound.splitStream f t).2 = t from this _ _
+    intro f
+    induction f with
+    | zero => intro t; simp [Inbound.splitStream]
+    | succ f ih =>
+      intro t
+      unfold Inbound.splitStream
+      split
+      · simp
+      · split
+        · simp
+        · simp only [List.flatten_cons, List.append_assoc, ih]
+          exact List.take_append_drop _ _
 
 end BV.C03
